@@ -246,7 +246,7 @@ class Runtime:
         return (run, nid, kw, k)
 
     # ---- collaborators -----------------------------------------------------------------------------
-    async def collab_call(self, what):
+    async def collab_call(self, what, n='-'):
         """what: 'ev' or 'save'; behaviour from self.collab: mode sync|yield, raise_at index list"""
         cfg = self.collab.get(what, {})
         with self.lock:
@@ -258,7 +258,13 @@ class Runtime:
                 idx = self.save_calls
         if cfg.get('mode') == 'yield' and self.virtual:
             gate = self.loop.new_gate('collab', info=(CUR_RUN.get(), what, idx))
-            await gate.fut
+            try:
+                await gate.fut
+            except asyncio.CancelledError:
+                # the engine cancelled the task while the collaborator call was suspended: whatever the engine does
+                # after this call for node n never happens (the execution of n was cut short)
+                self.log(e='Cut', r=CUR_RUN.get(), n=n, what=what)
+                raise
         if idx in (cfg.get('raise_at') or ()):
             raise RuntimeError('collaborator %s failure at call %d' % (what, idx))
 
